@@ -17,7 +17,9 @@ correspondence harness `driver/props/c01.py` (K).  Only property theorems live h
 
 All theorems quantify over EVERY history `ops : List Op` (class definitions with arbitrary `__mro__` data - ill-formed
 ones are rejected by `classOk` on both machines -, `extension_class`, registrations, removals through any class,
-accesses through classes and instances, reads); no well-formedness hypothesis on the history is needed.
+accesses through classes and instances - by plain attribute lookup, through `super(K, x).h` and by explicit descriptor
+calls `S.__dict__["h"].__get__(x, C)`, which reach `Hook.__get__` of a BASE class' hook object with an owner that may carry a
+hook object of its own -, reads); no well-formedness hypothesis on the history is needed.
 -/
 
 namespace Hooks
@@ -31,10 +33,11 @@ namespace Hooks
   the order of the six `yield from` lines of `functions_gen` (`implTiers`), the `reversed(...)` of
   `_yield_functions_from` (`orient`), the store `add_function` appends to for each flag combination (`addStore?`), the
   stores `remove_function` looks into (`removeHits`), whether the re-entrancy mark is discarded in the `finally` clause
-  (`excUnmark`).  `implOrder`, `run`, `urun`, `evx`, `readOut` - everything the theorems of this file are about - are the
+  (`excUnmark`), whether `Hook.__get__` asked with an owner other than its own uses the hook object that class carries
+  already (`ownerReuse` / `askAs`).  `implOrder`, `run`, `urun`, `evx`, `readOut` - everything the theorems of this file are about - are the
   model instantiated with the generated values, and the theorem states what these values are; the simulation proof
-  (`PyrollProofs/HookRegLemmas.lean`: `implTiers_eq`, `orient_gen`, `addStore_gen`, `removeHits_gen`; `HookUseLemmas.lean`:
-  `excUnmark_gen`) uses exactly these facts, so a source change that alters one of them stops `order_refines` and
+  (`PyrollProofs/HookRegLemmas.lean`: `implTiers_eq`, `orient_gen`, `addStore_gen`, `removeHits_gen`, `ownerReuse_gen`;
+  `HookUseLemmas.lean`: `excUnmark_gen`) uses exactly these facts, so a source change that alters one of them stops `order_refines` and
   `marks_restored_on_every_path` (and what follows from them) from building.
 * `hooks_source_as_modelled` - the statements of the other mirrored functions, in canonical form, are the ones the
   hand-written model was read against (`PyrollModel/HookSource.lean`), together with every writer of the six stores and of
@@ -47,8 +50,9 @@ theorem hooks_source_consumed :
     (∀ l : List HF, orient Gen.C01.Hooks.yieldReversed l = l.reverse) ∧
     (∀ (w : Bool) (t : Tier), addStore? w t = some (w, t)) ∧
     (∀ (w : Bool) (t : Tier), removeHits w t = true) ∧
-    (∀ (m : List (Nat × Nat)) (k : Nat × Nat), excUnmark m k = m.erase k) :=
-  ⟨implTiers_eq, by decide, orient_gen, addStore_gen, removeHits_gen, excUnmark_gen⟩
+    (∀ (m : List (Nat × Nat)) (k : Nat × Nat), excUnmark m k = m.erase k) ∧
+    ownerReuse = true ∧ (∀ (st : State) (op : Op), step st op = stepWith true st op) :=
+  ⟨implTiers_eq, by decide, orient_gen, addStore_gen, removeHits_gen, excUnmark_gen, ownerReuse_gen, step_eq⟩
 
 /-- the model really follows the tables: with the `reversed` dropped, two tier lines swapped, a store forgotten by
     `remove_function` or the tryfirst / trylast tests exchanged it computes something else -/
@@ -56,18 +60,22 @@ example : orient false [⟨0, false, .ret none⟩, ⟨1, false, .ret none⟩] = 
     ["_wrappers", "_first_wrappers"].filterMap storeKey = [(true, .normal), (true, .first)] ∧
     (selectStore [(false, "trylast", "_last_functions"), (false, "", "_functions")] false true false).bind storeKey
       = some (false, .normal) ∧
-    (["_functions"].any fun s => storeKey s == some (true, Tier.last)) = false := by decide
+    (["_functions"].any fun s => storeKey s == some (true, Tier.last)) = false ∧
+    ((askAs false (run [.defClass 0 [0] true, .defClass 1 [1, 0] false, .add 1 .normal false (.ret (some 2))]) 0 1).own 1).map
+      (·.fns.length) = some 0 := by decide
 
 /-- **Source tie, pinned part**: the mirrored statements (canonical form) are the ones the model was written against;
     `_yield_functions_from` walks `self.owner.__mro__` and passes over an absent or empty store; `remove_function` passes
     over a store that does not hold the function; the mark is `id(instance)`, `cycle` is computed before the mark is set,
     the mark is set before the `try`, discarded in `finally` unless the call was a cycled one; a result is final when it
-    `is not None`; of `Hook.__get__` the class-level part (lazy per-subclass hook) and the remembered-value part are pinned,
+    `is not None`; of `Hook.__get__` the class-level part (the per-subclass hook object: in the form the consumed flag
+    `getOwnerReuse` says - the one the class carries already, a new one only when it carries none) and the remembered-value
+    part are pinned,
     of its computing part what `HookUse.useEval` mirrors: a remembered value that `is not None` is served from `__cache__`,
     a computed value is stored there, and a `None` result raises AttributeError before anything is stored (the explicit-value
     part and the other conversions are C02's and C07's) -/
 theorem hooks_source_as_modelled :
-    Gen.C01.Hooks.hook_getClass = HookSource.hook_getClass ∧
+    Gen.C01.Hooks.hook_getClass = HookSource.hook_getClass Gen.C01.Hooks.getOwnerReuse ∧
     Gen.C01.Hooks.hook_getCached = HookSource.hook_getCached ∧
     Gen.C01.Hooks.hookFunction_init = HookSource.hookFunction_init ∧
     Gen.C01.Hooks.hookFunction_cycle = HookSource.hookFunction_cycle ∧
@@ -256,8 +264,10 @@ example :
 
 /-- **Independence from when / through which class or instance the hook was first touched.**  Two histories that
 differ only in accesses (`getattr` on classes, attribute access through instances, `Hook.functions`, reads - all of
-which lazily create per-subclass hook objects), inserted or deleted anywhere, resolve every hook alike: same order,
-same value, same invocations. -/
+which lazily create per-subclass hook objects -, and accesses that reach the hook object of a BASE class with the class
+as owner although the class may carry a hook object of its own: `super(K, C).h`, `super(K, obj).h`, the explicit
+descriptor call `Base.__dict__["h"].__get__(x, C)`, with or without evaluation), inserted or deleted anywhere, resolve
+every hook alike: same order, same value, same invocations. -/
 theorem touch_irrelevant (ops ops' : List Op)
     (h : (ops.filter fun o => !o.isTouch) = (ops'.filter fun o => !o.isTouch)) (c : Cls) :
     implOrder (run ops) c = implOrder (run ops') c ∧ readOut (run ops) c = readOut (run ops') c := by
@@ -275,6 +285,89 @@ example :
       .add 0 .normal false (.ret (some 1)), .readFns 0, .add 1 .first true (.wrap 2 none), .touchClass 1]
     (ops.filter fun o => !o.isTouch) = (ops'.filter fun o => !o.isTouch) ∧ (readOut (run ops') 1).1 = some 12 := by
   decide
+
+/-- base 0 (hook), subclass 1, sub-subclass 2; one plain implementation registered on each -/
+def threeLevels : List Op :=
+  [.defClass 0 [0] true, .defClass 1 [1, 0] false, .defClass 2 [2, 1, 0] false, .add 0 .normal false (.ret (some 1)),
+    .add 1 .normal false (.ret (some 2)), .add 2 .normal false (.ret (some 3))]
+
+-- the same with accesses that ask the hook object of a base class for the subclass: `super(K1, K1).h`,
+-- `super(K1, K2()).h`, `K0.__dict__["h"].__get__(None, K2)`, `super(K2, K2()).h` - the subclasses keep their registrations
+example :
+    let ops' := threeLevels ++ [.touchVia (.super 1) 1, .readVia (.super 1) 2, .touchVia (.dict 0) 2, .readVia (.super 2) 2]
+    (threeLevels.filter fun o => !o.isTouch) = (ops'.filter fun o => !o.isTouch) ∧
+      (implOrder (run ops') 2).map (·.id) = [2, 1, 0] ∧ (implOrder (run ops') 1).map (·.id) = [1, 0] ∧
+      (readOut (run ops') 2).1 = some 3 ∧ viaLookup (run threeLevels) (.super 1) 2 = some 0 := by
+  decide
+
+/-- the same statement for the machine in the reusing form, whatever the source says (`run = runWith true` is the consumed
+    fact `ownerReuse_gen`) -/
+theorem touch_irrelevant_in_reusing_form (ops ops' : List Op)
+    (h : (ops.filter fun o => !o.isTouch) = (ops'.filter fun o => !o.isTouch)) (c : Cls) :
+    implOrder (runWith true ops) c = implOrder (runWith true ops') c ∧
+      readOut (runWith true ops) c = readOut (runWith true ops') c := by
+  have ha : arun ops = arun ops' := by
+    unfold arun; rw [← afoldl_filter ops, ← afoldl_filter ops', h]
+  have ho : implOrder (runWith true ops) = implOrder (runWith true ops') := by
+    funext k
+    rw [(rel_runWith_true ops).implOrder_eq, (rel_runWith_true ops').implOrder_eq, ha]
+  exact ⟨congrFun ho c, by simp only [readOut, ho]⟩
+
+example :
+    let ops' := threeLevels ++ [.touchVia (.super 1) 1, .readVia (.dict 0) 2]
+    (threeLevels.filter fun o => !o.isTouch) = (ops'.filter fun o => !o.isTouch) ∧
+      (implOrder (runWith true ops') 2).map (·.id) = [2, 1, 0] := by decide
+
+/-- **The other form of the source violates it.**  Were `Hook.__get__`, asked with an owner other than its own, to create
+a new hook object for that owner every time (the form of the source before the repair: `hook = Hook(); setattr(owner,
+name, hook)` without a look into `owner.__dict__`), one access through `super` would change order and value: the hook
+object of the subclass is replaced by an empty one and everything registered on the subclass is forgotten.  Concrete
+witness (replayed on the implementation: corpus history 15 of driver/props/c01.py): base 0 with `ret 1`, subclass 1 with
+`ret 2`; after `super(K1, K1()).h` the chain of class 1 is `[0]` instead of `[1, 0]` and `K1().h` is 1 instead of 2. -/
+theorem new_hook_for_other_owner_forgets_registrations :
+    ∃ (ops ops' : List Op) (c : Cls), (ops.filter fun o => !o.isTouch) = (ops'.filter fun o => !o.isTouch) ∧
+      implOrder (runWith false ops) c ≠ implOrder (runWith false ops') c ∧
+      (readOut (runWith false ops) c).1 ≠ (readOut (runWith false ops') c).1 :=
+  ⟨[.defClass 0 [0] true, .defClass 1 [1, 0] false, .add 0 .normal false (.ret (some 1)),
+      .add 1 .normal false (.ret (some 2))],
+    [.defClass 0 [0] true, .defClass 1 [1, 0] false, .add 0 .normal false (.ret (some 1)),
+      .add 1 .normal false (.ret (some 2)), .readVia (.super 1) 1], 1, by decide, by decide, by decide⟩
+
+example :
+    let ops := [Op.defClass 0 [0] true, .defClass 1 [1, 0] false, .add 0 .normal false (.ret (some 1)),
+      .add 1 .normal false (.ret (some 2))]
+    (implOrder (runWith false ops) 1).map (·.id) = [1, 0] ∧ (readOut (runWith false ops) 1).1 = some 2 ∧
+    (implOrder (runWith false (ops ++ [.readVia (.super 1) 1])) 1).map (·.id) = [0] ∧
+    (readOut (runWith false (ops ++ [.readVia (.super 1) 1])) 1).1 = some 1 ∧
+    (implOrder (runWith true (ops ++ [.readVia (.super 1) 1])) 1).map (·.id) = [1, 0] := by decide
+
+/-- **Through whichever hook object the question arrives, the object's class answers.**  A read that reaches the hook
+object of a base class with the object's class as owner (`super(K, obj).h`, `Base.__dict__["h"].__get__(obj, C)`) either
+finds no hook object to ask (AttributeError: no class after `K` carries the hook) or yields exactly the value and the
+invocation trace of the plain read `C().h` - the chain of the OBJECT's class, not the one of the class whose hook object
+was asked. -/
+theorem read_through_base_hook_resolves_alike (ops : List Op) (v : Via) (c : Cls) :
+    readViaOut ownerReuse (run ops) v c = none ∨
+      readViaOut ownerReuse (run ops) v c = some (readOut (run ops) c) := by
+  unfold readViaOut
+  cases hl : viaLookup (run ops) v c with
+  | none => exact Or.inl rfl
+  | some s =>
+    refine Or.inr ?_
+    obtain ⟨hm, ho⟩ := viaLookup_some hl
+    have hrel := rel_run ops
+    have h1 : Rel (askAs ownerReuse (run ops) s c) (arun ops) := by
+      rw [ownerReuse_gen]; exact hrel.askAs (hrel.mro_eq ▸ hm) ho
+    have hord : implOrder (askAs ownerReuse (run ops) s c) = implOrder (run ops) := by
+      funext k
+      rw [h1.implOrder_eq, hrel.implOrder_eq]
+    simp only [Option.map_some, readOut, hord]
+
+-- `super(K1, K2()).h` asks the hook object of class 0 and yields what `K2().h` yields; `super(K0, K2()).h`: AttributeError
+example :
+    readViaOut ownerReuse (run threeLevels) (.super 1) 2 = some (some 3, [.call 2]) ∧
+    readOut (run threeLevels) 2 = (some 3, [.call 2]) ∧
+    readViaOut ownerReuse (run threeLevels) (.super 0) 2 = none := by decide
 
 /-! ## every registration is an entry of its own
 
